@@ -419,7 +419,144 @@ fn run_kernel(f: &[&str]) -> String {
                 Err(_) => format!("panic:{}", last_panic()),
             }
         }
+        // k nest <derivation> → ok | err-chain | err-rec: the verdict of the real parser on the source a
+        // parse derivation (`MJ/Model/Nesting.lean: P`) unparses to
+        "nest" => {
+            let src = match nest_parse(f[1].as_bytes(), &mut 0) {
+                Some(n) => nest_source(&n),
+                None => return "bad-case".into(),
+            };
+            match guarded(|| env.compile_expression_owned(src).map(|_| ())) {
+                Ok(Ok(())) => "ok".into(),
+                Ok(Err(e)) => {
+                    let d = e.detail().unwrap_or("").to_string();
+                    if d.contains("nested too deeply") {
+                        "err-chain".into()
+                    } else if d.contains("recursion limit") {
+                        "err-rec".into()
+                    } else {
+                        format!("err-other:{}", error_kind_name(&e))
+                    }
+                }
+                Err(_) => format!("panic:{}", last_panic()),
+            }
+        }
         _ => "bad-case".into(),
+    }
+}
+
+// ---- parse derivations (ast_depth_bound correspondence) ---------------------------------------------
+enum Nest {
+    Leaf,
+    Chain(u8, Box<Nest>, Vec<(usize, Nest)>),
+    Group(Vec<(usize, Nest)>),
+}
+
+/// `x` | `c<kind>(P,Rep,…)` | `g(Rep,…)` with `Rep` = `[n*]P`
+fn nest_parse(b: &[u8], i: &mut usize) -> Option<Nest> {
+    fn rep(b: &[u8], i: &mut usize) -> Option<(usize, Nest)> {
+        let mut n = 1usize;
+        if b.get(*i)?.is_ascii_digit() {
+            n = 0;
+            while b.get(*i)?.is_ascii_digit() {
+                n = n * 10 + (b[*i] - b'0') as usize;
+                *i += 1;
+            }
+            if b.get(*i) != Some(&b'*') {
+                return None;
+            }
+            *i += 1;
+        }
+        Some((n, nest_parse(b, i)?))
+    }
+    fn reps(b: &[u8], i: &mut usize, v: &mut Vec<(usize, Nest)>) -> Option<()> {
+        loop {
+            match b.get(*i)? {
+                b')' => {
+                    *i += 1;
+                    return Some(());
+                }
+                b',' => {
+                    *i += 1;
+                    v.push(rep(b, i)?);
+                }
+                _ => return None,
+            }
+        }
+    }
+    match b.get(*i)? {
+        b'x' => {
+            *i += 1;
+            Some(Nest::Leaf)
+        }
+        b'c' => {
+            let k = *b.get(*i + 1)?;
+            if b.get(*i + 2) != Some(&b'(') {
+                return None;
+            }
+            *i += 3;
+            let left = nest_parse(b, i)?;
+            let mut its = vec![];
+            reps(b, i, &mut its)?;
+            Some(Nest::Chain(k, Box::new(left), its))
+        }
+        b'g' => {
+            if b.get(*i + 1) != Some(&b'(') {
+                return None;
+            }
+            *i += 2;
+            let mut items = vec![];
+            if b.get(*i) == Some(&b')') {
+                *i += 1;
+                return Some(Nest::Group(items));
+            }
+            items.push(rep(b, i)?);
+            reps(b, i, &mut items)?;
+            Some(Nest::Group(items))
+        }
+        _ => None,
+    }
+}
+
+/// the source text whose parse is the derivation: a group is a list literal, a chain one of
+/// `L|f(I)…` (f), `L(I)…` (c), `L.a…` (a, iterations without sub-expression), `L + I…` (p),
+/// `L if I…` (i); non-trivial operands are parenthesised (the guard levels this adds are not compared)
+fn nest_source(n: &Nest) -> String {
+    fn operand(n: &Nest) -> String {
+        match n {
+            Nest::Leaf => "x".into(),
+            Nest::Group(_) => nest_source(n),
+            Nest::Chain(..) => format!("({})", nest_source(n)),
+        }
+    }
+    match n {
+        Nest::Leaf => "x".into(),
+        Nest::Group(items) => {
+            let mut parts = vec![];
+            for (k, it) in items {
+                let s = nest_source(it);
+                for _ in 0..*k {
+                    parts.push(s.clone());
+                }
+            }
+            format!("[{}]", parts.join(", "))
+        }
+        Nest::Chain(kind, left, its) => {
+            let mut s = operand(left);
+            for (k, it) in its {
+                let piece = match kind {
+                    b'f' => format!("|f({})", nest_source(it)),
+                    b'c' => format!("({})", nest_source(it)),
+                    b'a' => ".a".to_string(),
+                    b'p' => format!(" + {}", operand(it)),
+                    _ => format!(" if {}", operand(it)),
+                };
+                for _ in 0..*k {
+                    s.push_str(&piece);
+                }
+            }
+            s
+        }
     }
 }
 
@@ -1288,6 +1425,36 @@ fn gen_kernel_cases(out: &mut Vec<String>, thorough: bool) {
             }
         }
     }
+    // parse derivations around MAX_EXPR_NESTING (1000)
+    for kind in ["f", "c", "a", "p", "i"] {
+        for n in [0usize, 1, 2, 500, 999, 1000, 1001, 1500] {
+            out.push(format!("k nest c{}(x,{}*x)", kind, n));
+        }
+        for (a, b) in [(500usize, 500usize), (500, 501), (1, 999), (1, 1000), (999, 1), (1000, 1)] {
+            // chains on the path through the left operand add up
+            out.push(format!("k nest c{}(ca(x,{}*x),{}*x)", kind, a, b));
+            out.push(format!("k nest c{}(g(ca(x,{}*x),x),{}*x)", kind, a, b));
+        }
+    }
+    for kind in ["f", "c", "p", "i"] {
+        for (a, b) in [(600usize, 600usize), (999, 5), (1000, 5), (5, 999), (5, 1000), (998, 998)] {
+            // sub-expressions next to each other: the longer one counts, then the wrapping node
+            out.push(format!("k nest c{}(x,g(ca(x,{}*x),ca(x,{}*x)))", kind, a, b));
+            out.push(format!("k nest c{}(x,ca(x,{}*x),ca(x,{}*x))", kind, a, b));
+            out.push(format!("k nest c{}(x,{}*x,ca(x,{}*x))", kind, a, b));
+            out.push(format!("k nest g(c{}(x,{}*x),c{}(x,{}*x))", kind, a, kind, b));
+        }
+        for d in [1usize, 2, 3, 10] {
+            // `d` levels of chains of 400 nested in each other's last iteration
+            let mut e = "ca(x,400*x)".to_string();
+            for _ in 0..d {
+                e = format!("c{}(x,399*x,{})", kind, e);
+            }
+            out.push(format!("k nest {}", e));
+        }
+    }
+    out.push("k nest g(2000*ca(x,3*x))".to_string());
+    out.push("k nest cf(x,g(300*cp(x,3*x)))".to_string());
     for nl in ["0", "2", "65533", "65534", "65535", "65536", "70000"] {
         for pad in ["0", "1", "7", "65530", "65533", "65534", "65535", "65536", "70000"] {
             for tail in ["str", "tok", "chr", "blk", "eof", "mb", "ml", "call", "plus"] {
